@@ -66,6 +66,9 @@ const PROBES: &[&str] = &[
     "kind_sub_image",
     "kind_text",
     "nothing_drawn",
+    "colour_stream_next_then_for_each",
+    "pixel_stream_for_each",
+    "size_hint_compared_with_observed_end",
 ];
 
 const FAULTS: &[&str] = &["none (fault-free configuration; environment variation only)"];
@@ -156,7 +159,7 @@ impl Property for C01 {
         "device_runs"
     }
     fn rule(&self) -> &'static str {
-        "one seeded scenario = one drawable (styled primitive with solid stroke / polyline / image / sub-image / text; all style switches, stroke widths biased to exceed the shape) + device box (contains the drawing in ~half of the runs, otherwise small/empty/non-origin) + optional adapter stack + path-B capability set and discipline; rendered by draw() on a draw_iter-only device, draw() on the native device and (styled primitives) pixels() via draw_iter; pixel maps must be equal. distinct = 64-bit hash of the decoded scenario; non-trivial = at least one pixel of the device was set on some path"
+        "one seeded scenario = one drawable (styled primitive with solid stroke / polyline / image / sub-image / text; all style switches, stroke widths biased to exceed the shape) + device box (contains the drawing in ~half of the runs, otherwise small/empty/non-origin) + optional adapter stack + path-B capability set and discipline; rendered by draw() on a draw_iter-only device, draw() on the native device and (styled primitives) pixels() via draw_iter; pixel maps must be equal and no stream may contradict its own size_hint() (devices consume with next / nth / for_each, also mixed on one stream). distinct = 64-bit hash of the decoded scenario; non-trivial = at least one pixel of the device was set on some path"
     }
     fn assumptions(&self) -> Vec<&'static str> {
         vec![
@@ -356,6 +359,13 @@ impl Property for C01 {
             None
         };
         out.sub_evals = 2 + c.is_some() as u64;
+        for r in [Some(&a), Some(&b), c.as_ref()].into_iter().flatten() {
+            for (i, name) in ["colour_stream_next_then_for_each", "pixel_stream_for_each", "size_hint_compared_with_observed_end"].iter().enumerate() {
+                if r.reach[i] > 0 {
+                    out.probes |= probe(name);
+                }
+            }
+        }
         for r in [Some(&a), Some(&b), c.as_ref()].into_iter().flatten() {
             out.calls += r.st.n_calls;
             out.items += r.st.n_items;
